@@ -224,8 +224,11 @@ impl WindowSize {
                     Some(TcpMatchQuality::Low.as_score())
                 }
             }
-            (WindowSize::Mod(a), WindowSize::Mod(b)) => {
-                if a == b {
+            // `%N` in a signature means "window is a multiple of N": an observed `%4096` or a raw
+            // window that N divides is an instance of it
+            (WindowSize::Mod(a), WindowSize::Mod(b))
+            | (WindowSize::Value(a), WindowSize::Mod(b)) => {
+                if a.checked_rem(*b) == Some(0) {
                     Some(TcpMatchQuality::High.as_score())
                 } else {
                     Some(TcpMatchQuality::Low.as_score())
